@@ -35,6 +35,7 @@ fn scenario_json(scn: &Scenario) -> serde_json::Value {
     json!({"scenario": scn.to_json(), "gas_price": scn.world.gas_price, "max_fee": scn.tx.max_fee})
 }
 fn scenario_from(v: &serde_json::Value) -> Result<Scenario, String> {
+    if v.get("scenario").is_none() { return Err("no scenario".into()); }
     let mut s = Scenario::from_json(&v["scenario"])?;
     s.world.gas_price = v["gas_price"].as_u64().unwrap_or(0);
     s.tx.max_fee = v["max_fee"].as_u64().unwrap_or(0);
@@ -225,6 +226,123 @@ fn rle(tokens: &[String]) -> String {
 
 struct CaseOut { case: Option<Case>, fails: Vec<(String, String)>, stats: Vec<String> }
 
+// ------------------------------------------------------------------ histories on ONE MemoryClient
+#[derive(Clone, Debug, serde::Serialize, serde::Deserialize)]
+enum HEv {
+    /// deploy contract `k` (code: write a storage slot, return) through MemoryClient::deploy
+    Deploy(usize),
+    /// a script that optionally calls contract `k` and then returns / reverts / panics
+    Script { call: Option<usize>, end: u8 },
+}
+fn gen_history(rng: &mut Rng) -> Vec<HEv> {
+    let mut evs = vec![];
+    let mut deployed = 0usize;
+    for _ in 0..rng.range(2, 7) {
+        if deployed == 0 || rng.chance(1, 3) { evs.push(HEv::Deploy(deployed)); deployed += 1; }
+        else {
+            let call = if rng.chance(2, 3) { Some(rng.below(deployed as u64) as usize) } else { None };
+            evs.push(HEv::Script { call, end: *rng.pick(&[0u8, 0, 0, 1, 2]) });
+        }
+    }
+    evs
+}
+fn run_history(evs: &[HEv], seed: u64, idx: usize) -> CaseOut {
+    use fuel_tx::{field::Outputs, Finalizable, Output, TransactionBuilder};
+    use fuel_vm::checked_transaction::IntoChecked;
+    use fuel_vm::interpreter::MemoryInstance;
+    use fuel_vm::memory_client::MemoryClient;
+    use fuel_vm::storage::{InterpreterStorage, MemoryStorage};
+    let mut rng = Rng::new(seed);
+    let mut fails = vec![];
+    let mut stats = vec![];
+    let base = AssetId::from(rng.bytes32());
+    let w = World::new(GasSchedule::Default, 3, vec![base]);
+    let height = fuel_types::BlockHeight::from(3u32);
+    let storage = MemoryStorage::new(height, ContractId::from([0xCB; 32]));
+    let mut client: MemoryClient<MemoryInstance> = MemoryClient::new(MemoryInstance::new(), storage, w.interpreter_params());
+    let mut ids: Vec<ContractId> = vec![];
+    let key = [7u8; 32];
+    // observable contents of the client's storage: which created contracts exist, all contract state
+    let dump = |client: &MemoryClient<MemoryInstance>, ids: &[ContractId]| -> String {
+        let st: &MemoryStorage = client.as_ref();
+        let mut exist: Vec<String> = ids.iter().filter(|c| st.storage_contract_exists(c).unwrap_or(false)).map(|c| hex::encode(&c.as_ref()[..4])).collect();
+        exist.sort();
+        let mut state: Vec<String> = st.all_contract_state().map(|(k, v)| format!("{}={}", hex::encode(k.as_ref()), hex::encode(v.as_ref()))).collect();
+        state.sort();
+        format!("{exist:?}|{state:?}")
+    };
+    let mut known: Vec<String> = vec![dump(&client, &ids)];
+    let mut intern = |s: String| -> usize { match known.iter().position(|x| *x == s) { Some(i) => i, None => { known.push(s); known.len() - 1 } } };
+    let mut toks: Vec<String> = vec![];
+    let mut committed_since_deploy = true;
+    for (n, ev) in evs.iter().enumerate() {
+        let before = dump(&client, &ids);
+        match ev {
+            HEv::Deploy(k) => {
+                // code: sww key <- 100 + k; ret
+                let code = instrs_to_words(&[op::gtf(D, RegId::ZERO, GTFArgs::ScriptData as u16), op::movi(0x30, 64), op::aloc(0x30), op::movi(0x31, 100 + *k as u32),
+                                             op::sww(RegId::HP, 0x29, 0x31), op::ret(RegId::ONE)]);
+                let salt = fuel_types::Salt::from(rng.bytes32());
+                let mut b = TransactionBuilder::create(words_to_bytes(&code).into(), salt, vec![]);
+                b.with_params(w.params.clone());
+                b.add_fee_input();
+                b.add_contract_created();
+                let tx = b.finalize();
+                let id = tx.outputs().iter().find_map(|o| if let Output::ContractCreated { contract_id, .. } = o { Some(*contract_id) } else { None }).unwrap_or_default();
+                match tx.into_checked(height, &w.params) {
+                    Ok(checked) => match client.deploy(checked) {
+                        Ok(_) => { ids.push(id); committed_since_deploy = false; }
+                        Err(e) => { stats.push(format!("history: deploy error {e:?}").chars().take(60).collect()); ids.push(id); }
+                    },
+                    Err(e) => { stats.push(format!("history: create rejected {e:?}").chars().take(60).collect()); ids.push(id); }
+                }
+                let after = intern(dump(&client, &ids));
+                toks.push(format!("HDeploy {after}"));
+            }
+            HEv::Script { call, end } => {
+                let callee: Vec<ContractId> = call.map(|k| vec![ids[k]]).unwrap_or_default();
+                let layout = DataLayout::new(&mut Rng::new(1), &callee, &[base], 0);
+                let mut sc = prologue();
+                if call.is_some() { sc.extend(call_instrs(&layout, 0, 0, 0)); }
+                sc.push(match end { 0 => op::ret(RegId::ONE), 1 => op::rvrt(RegId::ONE), _ => op::div(0x20, RegId::ONE, RegId::ZERO) });
+                let mut tx = TxSpec::new(words_to_bytes(&instrs_to_words(&sc)), layout.bytes.clone(), 1_000_000);
+                tx.key_seed = rng.next();
+                tx.coins.push((base, 1000));
+                tx.contract_inputs = callee.clone();
+                tx.outputs = vec![OutSpec::Change(base)];
+                let ready = match tx.build(&w) { Ok(r) => r, Err(e) => { stats.push(format!("history: script rejected {e}").chars().take(60).collect()); continue; } };
+                let (_p, checked) = ready.decompose();
+                let receipts = client.transact(checked).to_vec();
+                let has_state = client.state_transition().is_some();
+                let failed = !has_state || receipts.iter().any(|r| matches!(r, Receipt::Revert { .. } | Receipt::Panic { .. }));
+                let after_s = dump(&client, &ids);
+                let after = intern(after_s.clone());
+                if failed {
+                    // the property: a failed execution leaves the client's contract storage exactly as it was
+                    if after_s != before {
+                        let class = if !committed_since_deploy { "failed-script-after-uncommitted-deploy-loses-deployment" } else { "failed-script-changes-client-storage" };
+                        fails.push((class.to_string(), format!("event {n}: storage before the failed script {before}, after it {after_s}")));
+                    }
+                    toks.push(if has_state { format!("HScriptFailed {after}") } else { format!("HScriptError {after}") });
+                } else {
+                    committed_since_deploy = true;
+                    toks.push(format!("HScriptOk {after}"));
+                }
+                let _ = key;
+            }
+        }
+    }
+    stats.push(format!("history events {}", evs.len()));
+    let coq = format!("XHist {}", coq_list(&toks));
+    let kinds: Vec<&str> = toks.iter().map(|t| t.split(' ').next().unwrap_or("")).collect();
+    let case = Case {
+        coq,
+        json: json!({"i": idx, "note": "history", "events": toks, "replay": {"history": evs, "seed": seed}}),
+        key: format!("hist|{}", toks.join(",")), nontrivial: kinds.contains(&"HDeploy") && (kinds.contains(&"HScriptFailed") || kinds.contains(&"HScriptError")), class: "history".into(),
+    };
+    CaseOut { case: Some(case), fails, stats }
+}
+
 fn run_case(scn: &Scenario, idx: usize, with_enc: bool) -> Result<CaseOut, String> {
     let w = &scn.world;
     let ready = scn.tx.build(w)?;
@@ -365,7 +483,7 @@ fn run_case(scn: &Scenario, idx: usize, with_enc: bool) -> Result<CaseOut, Strin
     let nontrivial = n >= 3 || !success;
     let note = scn.seed_note.split('-').next().unwrap_or("").to_string();
     let case = Case {
-        coq: intern_ids(&coq),
+        coq: format!("XRun {}", intern_ids(&coq)),
         json: json!({"i": idx, "note": scn.seed_note, "receipts": n, "result": class_end, "panic": reason, "steps": tr.steps.len(), "max_depth": max_depth,
                      "replay": if big { json!({"limit_variant": scn.seed_note}) } else { scenario_json(scn) }}),
         key, nontrivial, class: format!("{note}-{class_end}"),
@@ -388,14 +506,25 @@ fn main() {
             let k: u64 = s.trim_start_matches("limit-").parse().unwrap_or(0);
             scenarios.push(limit_scenario(&mut rng, k));
         } else {
-            match scenario_from(&v) { Ok(s) => scenarios.push(s), Err(e) => { eprintln!("bad replay: {e}"); std::process::exit(2); } }
+            match scenario_from(&v) { Ok(s) => scenarios.push(s), Err(e) => { if v.get("history").is_none() { eprintln!("bad replay: {e}"); std::process::exit(2); } } }
         }
     } else {
         for v in 0..6 { scenarios.push(tiny_scenario(&mut rng, v)); }
-        let limit_variants: Vec<u64> = if args.thorough() { (0..9).collect() } else { vec![0, 2, 7] };
+        let limit_variants: Vec<u64> = if args.thorough() { (0..9).collect() } else { vec![0, 7] };
         for v in limit_variants { scenarios.push(limit_scenario(&mut rng, v)); }
         for _ in 0..args.scale(50, 1500) { scenarios.push(nested_scenario(&mut rng)); }
         for _ in 0..args.scale(110, 4000) { scenarios.push(gen_generated(&mut rng)); }
+    }
+    let mut histories: Vec<(Vec<HEv>, u64)> = vec![];
+    if let Some(f) = &args.replay {
+        let v = read_replay(f);
+        if let Ok(evs) = serde_json::from_value::<Vec<HEv>>(v["history"].clone()) { scenarios.clear(); histories.push((evs, v["seed"].as_u64().unwrap_or(0))); }
+    } else {
+        // the shortest witnesses first, then random histories
+        histories.push((vec![HEv::Deploy(0), HEv::Script { call: None, end: 1 }], 1));
+        histories.push((vec![HEv::Deploy(0), HEv::Script { call: Some(0), end: 0 }, HEv::Deploy(1), HEv::Script { call: Some(1), end: 2 }, HEv::Script { call: Some(1), end: 0 }], 2));
+        histories.push((vec![HEv::Deploy(0), HEv::Script { call: Some(0), end: 0 }, HEv::Script { call: Some(0), end: 1 }, HEv::Script { call: Some(0), end: 0 }], 3));
+        for _ in 0..args.scale(30, 600) { let h = gen_history(&mut rng); let sd = rng.next(); histories.push((h, sd)); }
     }
     let mut skipped = 0u64;
     let mut enc_budget = if args.thorough() { 200 } else { 24 };
@@ -413,8 +542,15 @@ fn main() {
             Err(e) => { skipped += 1; out.count(&format!("skipped: {}", e.split(':').next().unwrap_or("?"))); }
         }
     }
+    for (k, (evs, sd)) in histories.iter().enumerate() {
+        out.oracle_evaluations += 1;
+        let co = run_history(evs, *sd, scenarios.len() + k);
+        for s in co.stats { out.count(&s); }
+        for (class, what) in co.fails { out.oracle_fail(&class, &what, json!({"history": evs, "seed": sd})); }
+        if let Some(c) = co.case { out.push(c); }
+    }
     out.notes.push(format!("{} scenarios, {} not executable (transaction rejected by the crate's own checks / step limit)", scenarios.len(), skipped));
     out.write(&args,
         "From FV Require Import Base.Bytes Gen.AssetTable Vm.OutcomeModel Vm.AssetModel Run.Outcome.\nOpen Scope N_scope.",
-        "ocase", "bad_ocases");
+        "xcase", "bad_xcases");
 }
